@@ -91,6 +91,9 @@ class C05(Prop):
             yield {"h1": h, "h2": prev or h, "perm": h[::-1]}
             prev = h
 
+    def pure_call(self, case):
+        return list(self.f(list(case["h1"])))
+
     def impl(self, case):
         out = []
         if case.get("pre"):
@@ -291,6 +294,10 @@ class C06(Prop):
                     x = av[0]; used[r].add(x)
                     hand.append(RANKS[r] + SUITS[x])
                 yield {"board": board, "h4": hand, "h2": hand[:2], "_nobrute": True}
+
+    def pure_call(self, case):
+        return [list(self.ou.get_hand_strength_fast(list(case["board"]), list(case["h4"]))),
+                list(self.hu.get_hand_strength_fast(list(case["board"]), list(case["h2"])))]
 
     def impl(self, case):
         def run(f, *a):
